@@ -37,7 +37,9 @@ CLAIMS = {
              "0..255 or IndexError) and __Pyx_{Get,Set}ItemInt_ByteArray_Fast_Locked (read / write of exactly one byte, IndexError, "
              "nothing else changed). And __Pyx_crop_slice, the bound normaliser behind l[a:b] / t[a:b] on typed lists and tuples: for ALL "
              "Py_ssize_t start / stop and every length its outputs describe exactly the slice of CPython's PySlice_AdjustIndices (empty "
-             "iff that slice is empty, else the same start and length, inside the sequence), with no signed overflow. "
+             "iff that slice is empty, else the same start and length, inside the sequence), with no signed overflow; and "
+             "IndexNode.analyse_as_pyobject for C-integer indices (Python side, 30 paths): a base typed str / bytes / bytearray / list / "
+             "tuple reaches the direct C helper only through the None check as_none_safe_node, whatever `nonecheck` says. "
              "Kernel: integer indexing of exact lists, tuples, bytes and bytearrays; item assignment on lists "
              "and bytearrays; slice bounds of lists and tuples.",
         note="Trusted: dv C front end, dv/pyobj.py (element array model, PyList_GET_SIZE/PyTuple_GET_SIZE, generic access delegated to "
